@@ -469,9 +469,9 @@ def layer_io_cells(tier):
     return cells
 
 
-def thin_io_cells(tier, which=("1", "2", "3", "4", "5")):
+def thin_io_cells(tier, which=("1", "2", "3", "4", "5", "6", "7", "8")):
     cells = []
-    names = {"1": "linear", "2": "nn", "3": "shuffle"}
+    names = {"1": "linear", "2": "nn", "3": "shuffle", "6": "cast", "7": "deref"}
     for T in which:
         un = "thin_io@T=" + T
         d = {"THIN": T}
@@ -486,6 +486,15 @@ def thin_io_cells(tier, which=("1", "2", "3", "4", "5")):
             cells.append(Cell("io.identity.write", un, "h_ident_write_binary", defines=d, enforce="ident_write_binary",
                               closes_loops="loop-free", backends=(("cadical", 900), ("sat", 600)),
                               note="write_io_header/footer bodies inlined here (their own contracts are enforced in io.write_io_*): replacing both calls exhausted the solver's memory"))
+        elif T == "8":
+            d8 = dict(d, DIMS_OUT=3, OUT_SCALAR_T="float")
+            cells.append(Cell("io.constant.outvec", un, "h_read_binary_outvec", defines=d8, enforce="read_binary_outvec", closes_loops="loop-free", backends=(("cadical", 900), ("sat", 600))))
+            for fl in ("debug", "ndebug"):
+                cells.append(Cell("io.constant.read.%s" % fl, un, "h_const_read_binary", defines=d8, flavour=fl, enforce="const_read_binary",
+                                  replace=["read_io_header", "read_io_footer", "read_binary_outvec"], closes_loops="loop-free", backends=(("cadical", 1500),), split=6))
+            cells.append(Cell("io.constant.write", un, "h_const_write_binary", defines=d8, enforce="const_write_binary",
+                              closes_loops="loop-free", backends=(("cadical", 1500),), split=6,
+                              note="write_io_header/footer bodies inlined (their contracts are enforced in io.write_io_*)"))
         elif T == "5":
             for fl in ("debug", "ndebug"):
                 cells.append(Cell("io.field.load.%s" % fl, un, "h_field_load", defines=d, flavour=fl, enforce="field_load",
@@ -498,8 +507,8 @@ def thin_io_cells(tier, which=("1", "2", "3", "4", "5")):
 def cells_C06(tier, consts):
     cells = binio_cells(tier) + array_io_cells(tier, ["read", "write"]) + layer_io_cells(tier) + thin_io_cells(tier)
     if tier == "quick":
-        keep = lambda c: (not c.id.startswith(("io.array.read.M1.double", "io.nn.", "io.shuffle."))
-                          and not (c.id.startswith(("io.strided.read", "io.field.load", "io.identity.read", "io.linear.read")) and c.id.endswith(".debug")))
+        keep = lambda c: (not c.id.startswith(("io.array.read.M1.double", "io.nn.", "io.shuffle.", "io.deref."))
+                          and not (c.id.startswith(("io.strided.read", "io.field.load", "io.identity.read", "io.linear.read", "io.cast.read", "io.constant.read")) and c.id.endswith(".debug")))
         cells = [c for c in cells if keep(c)]
     return cells
 
@@ -513,13 +522,13 @@ def cells_C07(tier, consts):
 
 PROPS["C06"] = {
     "level_text": "writers and readers proved against the golden byte grammar of the pinned revision, modularly: header/footer primitives; the array backend's payload (element loops closed by loop contracts, symbolic count); the framing of strided / morton / hilbert (tag, extents, inner image, footer), identity, the pass-through layers and field::dump / field(istream&) -- each against an ABSTRACT inner-backend serialiser; per-layer round-trip lemma over the two contracts: what write_binary emits, read_binary accepts, consuming exactly the image and returning the same configuration and inner value; writers are functions of configuration and payload only (re-dump gives the same bytes)",
-    "level_note": "the stack-level statement is the structural induction over layers (meta-level, unchecked; the inner backend's own round trip is the induction hypothesis); clamp / backup / affine / constant / covariant_cast / dereference serialisers are NOT under contract (constant, cast and dereference do not compile when instantiated: D7/D8, recorded); std::iostream modelled by the ghost stream; stream limited to 2^40 bytes, array to 2^32 elements",
+    "level_note": "the stack-level statement is the structural induction over layers (meta-level, unchecked; the inner backend's own round trip is the induction hypothesis); clamp / backup / affine serialisers are NOT under contract; constant, covariant_cast and dereference serialisers did not compile when instantiated (D7/D8): repaired by fix: commits and now under contract; std::iostream modelled by the ghost stream; stream limited to 2^40 bytes, array to 2^32 elements",
     "design_ref": "DESIGN.md section 5 (C06/C07/C08)",
     "cells": cells_C06, "consts": True,
     "explanation": "serialisers against the golden grammar, modular in the inner backend",
     "trusted_base": ["ghost stream model (stubs/stream.h)", "abstract inner-backend serialiser (stubs/backend_io.h)"],
     "assumptions": ["stack = structural induction over layers (meta-lemma)", "output never fails (no I/O errors modelled)"],
-    "not_covered": ["clamp, backup, affine, constant, covariant_cast, dereference serialisers", "cuda_device_array"],
+    "not_covered": ["clamp, backup, affine serialisers", "cuda_device_array"],
 }
 
 
@@ -856,4 +865,42 @@ PROPS["C05"] = {
     "trusted_base": ["abstract source-field stub (contracts/copy.h)"],
     "assumptions": ["nd_map visits each tuple of the box exactly once (C19)", "wrapper layers' converting constructors copy member-wise"],
     "not_covered": ["make_hilbert_copy's callback body (its index function and allocation size are covered)", "field-level converting constructors", "CUDA"],
+}
+
+
+# ------------------------------------------------------------------ C09
+def cells_C09(tier, consts):
+    cells = []
+    combos = [(1, "float"), (2, "float"), (3, "int"), (2, "double"), (4, "int")] if tier == "quick" else \
+             [(n, t) for n in (1, 2, 3, 4) for t in ("int", "float", "double") if not (n == 4 and t != "int")]
+    for n, t in combos:
+        d = {"DIMS_IN": n, "AT": t, "DIMS_OUT": 2 if n != 2 else 3, "OUT_SCALAR_T": "float"}
+        cl = "unwinding to the template constants N, N+1 (complete)"
+        be = (("cadical", 900), ("sat", 600)) if t != "int" else (("sat", 600), ("cadical", 900))
+        def C(name, h, enforce=None, replace=()):
+            cells.append(Cell("affine.%s.N%d.%s" % (name, n, t), "affine", h, defines=d, enforce=enforce, replace=list(replace), unwind=8,
+                              backends=be, closes_loops=cl, object_bits=10,
+                              note="exact sub-domain: integer entries, matrices |x| <= 16, vectors |x| <= 2048", replay="affine"))
+        C("mat_mul_a", "h_mat_mul_a", "mat_mul_a")
+        C("mat_mul_b", "h_mat_mul_b", "mat_mul_b")
+        C("identity", "h_mat_identity", "mat_identity")
+        C("apply", "h_affine_apply", "affine_apply", ["mat_mul_a"])
+        C("mul", "h_affine_mul", "affine_mul", ["mat_mul_b"])
+        C("translation", "h_affine_translation", "affine_translation", ["mat_identity"])
+        C("scaling", "h_affine_scaling", "affine_scaling", ["mat_identity"])
+        C("at", "h_affine_at", "affine_at", ["affine_apply"])
+        C("lemma_compose", "h_lemma_compose", None, ["affine_mul", "affine_apply"])
+        C("lemma_factories", "h_lemma_factories", None, ["affine_translation", "affine_scaling", "mat_identity", "affine_apply"])
+    return cells
+
+
+PROPS["C09"] = {
+    "level_text": "matrix product, identity, affine*vector, affine*affine, translation, scaling and the affine layer's lookup proved against the textbook formulas on the exact sub-domain the property names (all small-integer matrices and vectors: every operation is exact in int, float and double), N=1..4; lemmas over the contracts: (A*B)*v == A*(B*v) (the product applies the right factor first), translation(t)*v == v+t, scaling(s)*v == s.v, identity*v == v; the layer queries its backend exactly once at A x + t",
+    "level_note": "the 'within rounding' half for arbitrary finite floats is NOT decided (symbolic float products); the int instantiation is the same template text with T=int; matrix operator()/operator* rewritten by rule R17",
+    "design_ref": "DESIGN.md section 5 (C09)",
+    "cells": cells_C09, "consts": False,
+    "explanation": "affine algebra on the exact small-integer sub-domain",
+    "trusted_base": ["rule R17 (matrix element access / operator* rewriting)", "CBMC's float model"],
+    "assumptions": ["entries are integers with |x| <= 16 (matrices) / 2048 (vectors)"],
+    "not_covered": ["bounded relative error over arbitrary finite floats", "the affine layer's serialiser"],
 }
